@@ -20,10 +20,10 @@ Fixpoint split_dot (s : string) (acc : string) : string * string :=
 
 Inductive encsel := SelU | SelW | SelS.
 Definition family (suffix : string) : option (encsel * bool) :=
-  if tag_is suffix "u" || tag_is suffix "u8" || tag_is suffix "pu" || tag_is suffix "p8" then Some (SelU, false)
-  else if tag_is suffix "w" || tag_is suffix "w8" then Some (SelW, false)
-  else if tag_is suffix "tu" || tag_is suffix "t8u" then Some (SelU, true)
-  else if tag_is suffix "tw" || tag_is suffix "t8w" then Some (SelW, true)
+  if tag_is suffix "u" || tag_is suffix "u8" || tag_is suffix "pu" || tag_is suffix "p8" || tag_is suffix "bu" || tag_is suffix "b8u" then Some (SelU, false)
+  else if tag_is suffix "w" || tag_is suffix "w8" || tag_is suffix "bw" || tag_is suffix "b8w" then Some (SelW, false)
+  else if tag_is suffix "tu" || tag_is suffix "t8u" || tag_is suffix "tbu" || tag_is suffix "tb8u" then Some (SelU, true)
+  else if tag_is suffix "tw" || tag_is suffix "t8w" || tag_is suffix "tbw" || tag_is suffix "tb8w" then Some (SelW, true)
   else if tag_is suffix "sd" then Some (SelS, false)
   else None.
 Definition enc_of (s : encsel) : encops := match s with SelU => UE | SelW => WE | SelS => SE end.
